@@ -78,7 +78,12 @@ def oracle_q_fast(scores, targets, desc=True):
     return [suf[pos[float(x)]] for x in s]
 
 
+def accepted(qi, eval_fdr):
+    """q <= eval_fdr, with the exact q-value rounded to the nearest double first: the threshold is a double, and a
+    user who passes 0.1 means 1/10 (float64 is the finest resolution the statement can be read at)."""
+    return float(qi) <= float(eval_fdr)
+
+
 def oracle_labels(q, targets, eval_fdr):
-    """+1: target with q <= eval_fdr (exact comparison with the float's exact value), -1: decoy, 0: other target."""
-    thr = Fraction(eval_fdr)
-    return [(-1 if not t else (1 if qi <= thr else 0)) for qi, t in zip(q, targets)]
+    """+1: target with q <= eval_fdr, -1: decoy, 0: other target."""
+    return [(-1 if not t else (1 if accepted(qi, eval_fdr) else 0)) for qi, t in zip(q, targets)]
